@@ -3,6 +3,7 @@
    around the real Python code). *)
 From J1939 Require Import Base CodecGlue.
 From J1939.gen Require Import Codec Tp21Gen CaGen DiagGen.
+From J1939 Require Import Dm1Model.
 
 Definition b2z (b : bool) : Z := if b then 1 else 0.
 Definition flat_frame (f : frame) : list Z :=
@@ -49,6 +50,17 @@ Definition item_dtc_unpack (l : list Z) :=
 Definition item_lamp_data (l : list Z) := lamp_get_data (arg l 0) (arg l 1) (arg l 2) (arg l 3).
 Definition item_lamp_status (l : list Z) := [lamp_get_status (arg l 0) (arg l 1)].
 Definition item_dm22 (l : list Z) := dm22_payload (arg l 0) (arg l 1) (arg l 2).
+
+(* DM1: input = 4 lamp states, then (spn, fmi, oc) triples; output = payload, or for parse: 1/0, lamps, triples *)
+Fixpoint triples (l : list Z) : list dtc :=
+  match l with s :: f :: o :: r => {| d_spn := s; d_fmi := f; d_oc := o |} :: triples r | _ => [] end.
+Definition item_dm1_build (l : list Z) :=
+  let p := dm1_build (arg l 0) (arg l 1) (arg l 2) (arg l 3) (triples (skipn 4 l)) in dm1_priority p :: p.
+Definition item_dm1_parse (l : list Z) :=
+  match dm1_parse l with
+  | None => [0]
+  | Some (lamps, ds) => 1 :: lamps ++ concat (map (fun d => [d_spn d; d_fmi d; d_oc d]) ds)
+  end.
 
 (* comparison, computed inside Coq: indices of cases whose output differs *)
 Definition zlist_eqb (a b : list Z) : bool := if list_eq_dec Z.eq_dec a b then true else false.
